@@ -110,6 +110,13 @@ fn gen_large(t: &mut Tape, tier: Tier) -> Scenario {
     sc.set_i("prefix", t.range(1, 300));
     sc.set_i("rng", t.u64());
     sc.set_i("marker", t.below(2));
+    if t.below(3) == 0 {
+        // instead: one of the embedded programs that put the range register exactly on
+        // the refill boundary right before a direct bit (1 MiB of history, far matches)
+        sc.set_i("dbw", 1 + t.below(gen::DIRECT_BIT_WITNESSES.len() as u64));
+        sc.set_i("dict", crate::rcsearch::DB_DICT);
+        sc.set_l("props", vec![3, 0, 2]);
+    }
     sc.set_i("rk", [RK_SLICE, RK_SIM, RK_BUFREADER][t.below(3) as usize]);
     sc.set_i("bufcap", t.range(1, 70_000));
     sc.set_l("src_script", gen::draw_script(t));
@@ -118,13 +125,26 @@ fn gen_large(t: &mut Tape, tier: Tier) -> Scenario {
     opts.mode = t.below(3);
     opts.store(&mut sc);
     sc.note = format!("large: lc={} lp={} pb={} dict={} output={} marker={}", props.lc, props.lp, props.pb, dict, total, sc.i("marker"));
+    if sc.has_i("dbw") {
+        let w = gen::DIRECT_BIT_WITNESSES[(sc.i("dbw") - 1) as usize];
+        sc.note = format!("range register exactly {:#010x} before a direct bit (embedded program: tail seed {:#x}, {} symbols after 1 MiB of history); marker={}", crate::refmodel::codec::DIRECT_BIT_WATCH[w.2 as usize], w.0, w.1, sc.i("marker"));
+    }
     sc
 }
 
 fn exec_large(sc: &Scenario, ctx: &mut Ctx) -> Vec<Violation> {
-    let (props, payload, expect, far) = build_large_stream(sc);
-    let dict = sc.i("dict");
     let marker = sc.i("marker") == 1;
+    let (props, payload, expect, far) = if sc.has_i("dbw") {
+        let w = gen::DIRECT_BIT_WITNESSES[((sc.i("dbw") - 1) as usize).min(gen::DIRECT_BIT_WITNESSES.len() - 1)];
+        let (p, _d, pl, ex, mask) = crate::rcsearch::build_db_witness(w.0, w.1, marker);
+        if mask & (1 << w.2) != 0 {
+            ctx.stats.hit("probe.range_register_on_the_refill_boundary_before_a_direct_bit");
+        }
+        (p, pl, ex, 0)
+    } else {
+        build_large_stream(sc)
+    };
+    let dict = sc.i("dict");
     let mut opts = OptSpec::load(sc);
     let size = if marker { None } else { Some(expect.len() as u64) };
     let mut input = match opts.mode {
@@ -363,7 +383,7 @@ fn exec(sc: &Scenario, ctx: &mut Ctx) -> Vec<Violation> {
 pub static C01: SimpleProp = SimpleProp {
     id: "C01",
     level: "exploration",
-    rule: "one evaluation = one decode of a reference-encoded symbol program (random lc/lp/pb over all 225 settings, dictionary header values incl. <4096, tiny raw dictionaries 1..4095, both terminations, all three header options, benign short reads/writes through 4 reader kinds; now and then a multi-megabyte stream over a large dictionary) compared online with the LZ model; plus a second decode under another declared dictionary size; distinct = distinct (scenario, event log) hash; non-trivial = expected output non-empty",
+    rule: "one evaluation = one decode of a reference-encoded symbol program (random lc/lp/pb over all 225 settings, dictionary header values incl. <4096, tiny raw dictionaries 1..4095, both terminations, all three header options, benign short reads/writes through 4 reader kinds; now and then a multi-megabyte stream over a large dictionary, a third of those being embedded programs that put the range register exactly on 2^25-2, 2^25-1, 2^25 or 2^25+1 right before a direct bit) compared online with the LZ model; plus a second decode under another declared dictionary size; distinct = distinct (scenario, event log) hash; non-trivial = expected output non-empty",
     runs_quick: 200_000,
     runs_thorough: 24_000_000,
     both_profiles: false,
